@@ -999,6 +999,19 @@ class Unifier:
         branches = []
 
         def collect(a):
+            # the choice among the element codecs must be a function of the block's format word (a parameter of the decoder): the
+            # writer chooses by the element's class, which the constructor ties to the format - a choice by some OTHER decoded
+            # field (a model code, a flag) is tied to nothing
+            rc = self.rsub(a.cond)
+            decoded = [x.id for x in ast.walk(a.cond) if isinstance(x, ast.Name) and x.id.startswith("_R") and x.id.endswith("_")]
+            params = set(self.u.reader.params) if self.u.reader is not None else set()
+            free = {x.id for x in ast.walk(a.cond) if isinstance(x, ast.Name)} - params
+            if decoded or any(isinstance(x, ast.Attribute) and isinstance(x.value, ast.Name) and x.value.id == "self" for x in ast.walk(rc)):
+                fmt_only = all(isinstance(x.value, ast.Name) and x.value.id == "self" and x.attr == "format" for x in ast.walk(rc)
+                               if isinstance(x, ast.Attribute) and isinstance(x.value, ast.Name) and x.value.id == "self")
+                if not fmt_only:
+                    self.bad("format", w, a, f"the reader chooses the element decoder by `{canon(rc, self.ctx)}`, a decoded field other than the block format: "
+                             "the writer encodes each element by its class, which only the format is tied to")
             for br in (a.then, a.orelse):
                 st = [t for t in br if has_stream(t)]
                 if len(st) == 1 and isinstance(st[0], Alt):
